@@ -14,7 +14,7 @@ RULE = ("one evaluation = one history: up to 6 requests of random kinds (ping, l
         "out-of-order/duplicate/unknown delivery; distinct by (kinds, deliveries) hash")
 ASSUMPTIONS = ["reply shapes are the documented result shapes of vf/catalogue.py with id/from matched to the request",
                "only kinds for which the stack defines a reply entity are issued"]
-REQUIRED = ["group_keyfetch_with_known_members", "twin_requests", "twin_requests_while_first_outstanding", "concurrent_request_runs", "concurrent_requests_ok", "concurrent_yields", "internal:group-keyfetch", "internal_group_ok", "group_keyfetch_partial", "histories", "callbacks_that_raised", "reissued_in_callback", "requests", "deliveries", "predicted_callbacks", "observed_callbacks", "delivery:result", "delivery:error", "delivery:duplicate",
+REQUIRED = ["refused_requests_while_others_outstanding", "group_keyfetch_with_known_members", "twin_requests", "twin_requests_while_first_outstanding", "concurrent_request_runs", "concurrent_requests_ok", "concurrent_yields", "internal:group-keyfetch", "internal_group_ok", "group_keyfetch_partial", "histories", "callbacks_that_raised", "reissued_in_callback", "requests", "deliveries", "predicted_callbacks", "observed_callbacks", "delivery:result", "delivery:error", "delivery:duplicate",
             "delivery:unknown-id", "delivery:non-reply", "delivery:foreign", "internal:key-fetch", "internal:key-upload"]
 TIMEOUT = {"quick": 600, "thorough": 7200}
 
@@ -187,6 +187,27 @@ def one_history(acc, seed, tag, kits):
             choices.append("duplicate")
         if pending:
             choices.append("non-reply")
+        # a request the application built wrongly: serialising it raises, the send is refused with an exception which the
+        # application catches. Nothing went out, no reply will come; every OTHER outstanding request is answered as before.
+        if r.random() < 0.12:
+            bad = kinds[r.choice(sorted(kinds))](r)
+
+            def boom(*a, **k):
+                raise AttributeError("'NoneType' object has no attribute 'verif' (request built wrongly)")
+            bad.toProtocolTreeNode = boom
+            nb_ = len(kit.bottom.sent)
+            try:
+                app._sendIq(bad, lambda a, b: log.append(("rejected", "success", True, a)), lambda a, b: log.append(("rejected", "error", True, a)))
+                acc.count("unserialisable_requests_accepted")
+            except Exception:  # noqa
+                acc.count("unserialisable_requests_refused")
+            if len(kit.bottom.sent) != nb_:
+                del kit.bottom.sent[nb_:]
+                acc.count("unserialisable_requests_sent_something")
+            acc.count("refused_requests_between")
+            if pending:
+                acc.count("refused_requests_while_others_outstanding")
+            w["deliveries"].append(["(refused request issued)", bad.getId()])
         # issue more requests in between sometimes
         if r.random() < 0.15 and len(reqs) < 8:
             t0 = r.choice(reqs) if (reqs and r.random() < 0.4) else None
